@@ -493,3 +493,10 @@ Proof. unfold stored_up. intros H. pose proof (Z.div_mod (t1 + 999) 1000 ltac:(l
 
 Lemma stored_down_refuted : exists t1 t2 w, t2 - stored_down t1 >= w /\ ~ (t2 - t1 >= w).
 Proof. exists 1700000000900, 1700259200100, 259200000. vm_compute. split; [discriminate|]. intros H. apply H. reflexivity. Qed.
+
+(* what a lookup contributes to the cache is a single line *)
+Lemma fetched_single_line i t : fetched i = Some t -> existsb is_eol t = false.
+Proof.
+  unfold fetched. destruct (option_map trim (fetch i)) as [t0|]; [|discriminate].
+  destruct (existsb is_eol t0) eqn:E; [discriminate|]. intros [= <-]. exact E.
+Qed.
